@@ -23,6 +23,14 @@ for d in sorted(glob.glob("/tmp/seed/out-C*/[ab]")):
     if "--no-fail-fast" not in cmd and "nextest" in cmd:
         cmd += " --no-fail-fast"
     t[f"{pid}-{var}"] = [m.group(1), cmd, CHECKS[pid]]
+OVERRIDE = {
+ "C06-a": "cargo nextest run --workspace --offline -E 'package(compio-driver) & binary(seed_c06a_double_close)' --no-fail-fast",
+ "C06-b": "cargo nextest run --workspace --offline -E 'package(compio-driver) & binary(seed_c06b_accept_multi_cancel)' --no-fail-fast",
+ "C04-b": "RUSTFLAGS='--cfg loom' CARGO_TARGET_DIR=/tmp/seed/tgt-C04-loom cargo test --offline -p compio-executor --test seed_c04_b",
+}
+for k, c in OVERRIDE.items():
+    if k in t:
+        t[k][1] = c
 json.dump(t, open("/tmp/seed/confirm_table.json", "w"), indent=1)
 for k, v in t.items():
     print(k, v[0], "|", v[1][:110])
